@@ -119,6 +119,43 @@ def run_l2(run, cases, rng, n8, nother):
     return len(trace) - 1
 
 
+def run_manybranch(run):
+    """scale in the number of branches of one range (EitherOf nesting of the arms)"""
+    import os
+    import probe
+    cases, _ = loadfam.gen_cases(run, "MC_ManyBranch", "MC_ManyBranch_%s.cfg" % run.tier, workers=1)
+    c = cases[0]
+    calls = []
+    for cid, flav in ((1, "td_string"), (2, "td")):
+        expr = "td_string!(Locale::en, r, count = n).to_string()" if flav == "td_string" else "render(td!(Locale::en, r, count = move || n))"
+        calls.append({"id": cid, "flav": "raw", "rust": "for n in u8::MIN..=u8::MAX { println!(\"{{\\\"call\\\":%d,\\\"n\\\":{},\\\"outcome\\\":\\\"Ok\\\",\\\"out\\\":\\\"{}\\\"}}\", n, esc(&%s)); } String::new()" % (cid, expr)})
+    project = {"name": "c04many", "cfg": c["cfg"], "files": c["files"], "calls": calls}
+    results, log = probe.build_and_run(run, [project], tag="_c04many")
+    r = results["c04many"]
+    if not r["built"]:
+        run.violation("l2-build;many-branches;%d" % c["abs"]["n"], "a range with %d branches does not compile" % c["abs"]["n"], {"build_log": r["build_log"] or log[-3000:]})
+        return 0
+    trace = [{"ev": "RenderManyBranch", "case": 1, "n": ev["n"], "flav": "td_string" if ev["call"] == 1 else "td", "outcome": ev["outcome"], "out": probe.to_syms(ev["out"])}
+             for ev in r["events"] if "n" in ev]
+    if len(trace) != 512:
+        raise vp.ToolError("c04many printed %d of 512 results (rc=%s, %s)" % (len(trace), r.get("rc"), r.get("stderr", "")[-300:]))
+    trace.append({"ev": "End"})
+    wd = os.path.join(run.workdir, "l2many")
+    os.makedirs(wd, exist_ok=True)
+    tpath, cpath = os.path.join(wd, "trace.ndjson"), os.path.join(wd, "cases.ndjson")
+    vp.write_ndjson(tpath, trace)
+    vp.write_ndjson(cpath, [{"id": 1, "abs": c["abs"]}])
+    summary, rejects, _ = vp.trace_validate("Trace_Ranges", "Trace_Ranges.cfg", wd, tpath, cpath)
+    if summary["consumed"] != summary["events"]:
+        raise vp.ToolError("trace spec consumed %s of %s events" % (summary["consumed"], summary["events"]))
+    run.traces += 1
+    run.events += summary["events"]
+    for rj in rejects:
+        ev = trace[rj["l"] - 1]
+        run.violation("l2;many-branches;%s;count=%d" % (ev["flav"], ev["n"]), "rendered %r" % vp.text_of(ev["out"]), {"event": ev, "branches": c["abs"]["n"]})
+    return len(trace) - 1
+
+
 def check(run):
     quick = run.tier == "quick"
     cases, res = loadfam.gen_cases(run, "MC_Ranges", "MC_Ranges_%s.cfg" % run.tier, timeout=7200)
@@ -131,6 +168,7 @@ def check(run):
     loadfam.replay_load(run, chosen, "Trace_Ranges", "Trace_Ranges.cfg", build_features=("json", "quote"),
                         variant="json-quote", key_of=_key)
     run.notes["l2_render_events"] = run_l2(run, cases, rng, 12 if quick else 120, 60 if quick else 800)
+    run.notes["l2_many_branch_events"] = run_manybranch(run)
     run.exhaustive = len(chosen) == len(cases)
     run.notes["declarations_generated"] = len(cases)
     run.assumptions = ["counts and bounds range over 6 anchors per numeric type (type minimum, neighbours of 0, type maximum; floats: exactly representable values)",
